@@ -151,7 +151,7 @@ def rule_tid_sources(ctx, res):
     """every Request message is built with a transaction id produced by a `generate()` of the constructing activity's generator"""
     aggs = [x for x in ctx.aggregates(adt='message::MessageBody', variant='Request') if not ctx.is_derived(x[0].path) and not x[0].path.startswith('<message::Message as std::convert::TryFrom')]
     res.sites += len(aggs)
-    res.check(len(aggs) >= 5, 'WHO', 'message::MessageBody::Request', 'request construction sites (floor 5)', detail=str(len(aggs)))
+    res.check(len(aggs) >= 3, 'WHO', 'message::MessageBody::Request', 'request construction sites (floor 3)', detail=str(len(aggs)))
     bodies = {x[0].path: x[0] for x in aggs}
     for path, body in bodies.items():
         res.touch(body)
